@@ -1694,11 +1694,11 @@ func ruleLoopCarriedTemplates(c *core.Ctx, rule string, shortPkg string) {
 				}
 				// vertices of loops nested in this one: a fill there is an element-wise
 				// fill whose completeness is the inner loop's business
-				nested := map[*core.V]bool{}
+				nested := map[*core.V]*core.V{}
 				for _, h2 := range loopHeads(g) {
 					if h2 != head && in[h2] {
 						for v := range naturalLoop(g, h2) {
-							nested[v] = true
+							nested[v] = h2
 						}
 					}
 				}
@@ -1718,7 +1718,18 @@ func ruleLoopCarriedTemplates(c *core.Ctx, rule string, shortPkg string) {
 						continue
 					}
 					for _, f := range fs {
-						if nested[f.v] {
+						if h2 := nested[f.v]; h2 != nil {
+							// an element-wise fill in an inner loop covers the same elements in
+							// every outer iteration only if the inner loop's extent does not depend
+							// on the data: its condition must be about the index it fills with
+							if len(es) > 0 && h2.Cond != nil && h2.Cond.Range == nil && h2.Cond.Expr != nil {
+								if ix, isIx := ast.Unparen(fillTarget(f.node)).(*ast.IndexExpr); isIx {
+									if idx := core.ObjOf(info, ix.Index); idx != nil && !core.Mentions(info, h2.Cond.Expr, idx) {
+										o.Count(1)
+										o.FailAt(fn.Site(f.node, ""), "%s is filled by an inner loop whose extent (%s) does not depend on the index: how many elements are rewritten varies from one iteration of the outer loop to the next, the others keep their old value, and %s is emitted in every iteration", f.target, core.ExprStr(h2.Cond.Expr), obj.Name())
+									}
+								}
+							}
 							continue
 						}
 						o.Count(1)
@@ -1837,4 +1848,17 @@ func calleeWritesArg(c *core.Ctx, cs core.CallSite, i int, depth int) bool {
 		}
 	}
 	return false
+}
+
+// fillTarget returns the expression a fill stores into (the left-hand side of
+// an element assignment); nil for fills through calls.
+func fillTarget(n ast.Node) ast.Expr {
+	if as, ok := n.(*ast.AssignStmt); ok {
+		for _, l := range as.Lhs {
+			if _, isIx := ast.Unparen(l).(*ast.IndexExpr); isIx {
+				return l
+			}
+		}
+	}
+	return &ast.Ident{Name: "_"}
 }
